@@ -11,6 +11,16 @@ for l in open('/verif/properties.jsonl'):
 wt = f'/tmp/seed/{pid}{tag}'
 if not os.path.exists(wt):
     subprocess.check_call(['git', '-C', '/repo', 'worktree', 'add', '--detach', wt, 'HEAD', '-q'])
+prior = ''
+import glob
+for mf in sorted(glob.glob(f'/verif/seeded/{pid}*/meta.json')):
+    try:
+        pm = json.load(open(mf))
+        prior += "\n  - " + (pm.get('summary','') or '').replace('\n',' ')[:400]
+    except Exception:
+        pass
+if prior:
+    prior = "\nOther engineers have already broken this property in the following ways; choose a DIFFERENT mechanism, a different code site and a different manifestation condition (prefer the part of the statement those did not touch; prefer bugs that need concurrency, a crash/fault at a particular point, or a long multi-step history):" + prior + "\n"
 print(f"""You are helping to test a verification framework by playing the role of a developer who introduces a subtle bug. You work ONLY inside the scratch git worktree {wt} (a copy of the WuKongIM repository, a distributed instant-messaging server written in Go). Do not read, list or use anything under /verif (it is off limits: your work must be independent of it) and do not touch /repo.
 
 The property you must break:
@@ -20,6 +30,7 @@ The property you must break:
   holds for: {prop['quantifier']['text']}
   code it is anchored in: {', '.join(prop['anchors']['files'])}
 
+{prior}
 Task: change the NON-TEST source code in {wt} so that this property no longer holds, while
  1. the tree still compiles: `go build ./...`;
  2. the existing test suite still passes: run the tests of every package you touched and of every package that (transitively) imports them — find them with `go list -deps`/`go list -f '{{.ImportPath}} {{.Imports}}' ./...` or simply `go test -vet=off -count=1 ./pkg/... ./internal/... 2>&1 | grep -v '^ok\\|no test files' | tail -30` restricted to the relevant sub-trees (the machine is shared and very busy: do NOT run the whole `./...` suite more than once, be patient; a handful of timing-sensitive tests are known to be flaky under load on an unchanged tree — if something fails, re-run that single package with your change reverted (`git apply -R` of your saved diff, never `git stash`) to see whether it also fails without your change);
